@@ -1,11 +1,13 @@
 PROP = dict(
-    drivers=['Term'],
-    gens=['loops'],
+    drivers=['Term', 'FontLoad', 'Rect'],
+    gens=['loops', 'fontpal', 'crc', 'palette'],
     lake=['IcyVerif.Props.C03'],
     ns='IcyVerif.C03',
     theorems=['all_loops_known', 'loop_inventory_complete', 'parse_number_bounded', 'rep_count_le', 'tab_count_le',
               'ich_count_le', 'il_count_le', 'scroll_count_le', 'scroll_lr_count_le', 'up_scroll_count_le',
-              'dch_count_le', 'dl_count_le', 'pushRepeated_len', 'pushRepeated_chars', 'replay_budget', 'macro_expansion_bounded', 'stream_steps_bounded'],
+              'dch_count_le', 'dl_count_le', 'pushRepeated_len', 'pushRepeated_chars', 'replay_budget', 'macro_expansion_bounded', 'stream_steps_bounded',
+              'font_zero_guard_present', 'font_loader_cost', 'font_loop_diverges_without_guard', 'palette_colours_le_bytes', 'rqcra_count_le', 'rect_count_le',
+              'rect_param_bounded'],
     harness='c03',
     harness_timeout=2400,
     design='DESIGN.md §4 C03',
@@ -13,18 +15,34 @@ PROP = dict(
                'size for all parameter values, and a regenerated loop inventory of the source must be covered by the '
                'table the theorems are about; wall-clock time, memory and stack are outside any model and are measured '
                'on the real code by the oracle run (per-token time and row growth, address-space cap, crash-isolated '
-               'workers); sixel headers, custom-font payloads and binary file headers are oracle-only',
-    technique='Lean 4 proof of clamp bounds over the TermGeo model + translator-regenerated loop inventory (decide) + '
-              'differential correspondence of the state after each extreme-parameter command + timing/memory oracle',
+               'workers); bitmap-font loaders (also behind the custom-font DCS) and the rectangle-area commands have loop-count '
+               'theorems of their own; the palette importers yield at most one colour per byte (theorem) - their time is oracle-only, as are sixel headers and binary art-file headers',
+    technique='Lean 4 proof of clamp bounds over the TermGeo model + translator-regenerated loop inventory (decide; covers the '
+              'terminal-stream code, src/fonts.rs and src/palette_handling.rs; for a loop bounded by a RAW parameter the text of the '
+              'rejecting guard is part of the fingerprint) + differential correspondence of the state after each extreme-parameter '
+              'command + timing/memory oracle. Font loaders: cost counters in Model/FontLoad (glyph-loop and checksum-loop '
+              'iterations) bounded by the file length for all byte strings, proved from the regenerated flag glyphZeroGuard; '
+              'rectangle commands: loop counts as functions of the parameters and the screen (Model/RectCost) bounded by the screen '
+              'for all parameter lists, tied by the CRC answer of DECRQCRA on a uniformly filled screen and by the number of cells '
+              'DECFRA/DECERA/DECSERA change',
     rule='cases: the control-function table (64 CSI finals x 8 intermediates x 0..6 parameters from {0, 1, h, w, 2^16, '
          '10^6, 2^31-1}; all pairs in thorough, sampled in quick) after 5 state prefixes (scrollback, margins, '
          'left/right margins, insert mode) on 4 screen sizes, recursive / mutually recursive / fan-out macros, hex repeat '
-         'groups, Avatar repeats, sixel raster/repeat headers, custom-font payloads, binary headers with extreme sizes; '
+         'groups, Avatar repeats, sixel raster/repeat headers, custom-font payloads, binary headers with extreme sizes; font '
+         'loaders: PSF1 heights {0,1,2,16,255} x modes x data of 0..256 KiB, PSF2 size fields at 14 extremes with 0/64/4096 data '
+         'bytes, large consistent PSF2 files, raw fonts up to 1 MiB, the DCS route; palettes: 24 number spellings in count lines and '
+         'channels of all 5 formats, 100 KB lines, thousands of lines; rectangle commands DECRQCRA/DECFRA/DECERA/DECSERA: every '
+         'combination of top/left/bottom/right from {0,1,size,size+1,65536,10^6,2147483599} (full product on 80x25, sampled on 7x4, '
+         '132x60 and 80x25 with scrollback), wrong parameter counts, non-character fill codes, tab report after w+5 tab stops; '
          'evaluations = sequences run; distinct_nontrivial = distinct sequences',
     modelled='loop counts of REP, CVT/CBT, ICH, DCH, IL, DL, SU/SD, SL/SR, cursor-up scrolling; number parsing; hex macro '
-             'repeat expansion; macro replay depth/budget',
-    not_modelled='time, memory, stack (oracle only); sixel decode, font loaders, binary loaders (oracle only)',
-    assumptions=['thresholds of the oracle: a token slower than 400 ms (debug build), a token adding more than one screenful '
+             'repeat expansion; macro replay depth/budget; BitFont::from_bytes (PSF1/PSF2/raw, glyphs_from_u8_data, '
+             'calculate_checksum loop bound) with iteration counters; DECRQCRA guard and loop counts, get_rect_area clamps and the '
+             'DECFRA/DECERA/DECSERA loop counts; number of colours a palette importer produces (Model/PalLoad)',
+    not_modelled='time, memory, stack (oracle only); sixel decode, binary art-file loaders (oracle only); the regex engine behind the '
+                 'palette importers (its loops are the crate\'s; the model bounds the number of colours, the oracle measures time); the tab-stop report DECTABSR CSI 2 $ w (loop over the tab stops '
+                 'present: inventory + timing only)',
+    assumptions=['thresholds of the oracle: a token, loader case or rectangle command slower than 3000 ms (debug build, thread CPU time), a token adding more than one screenful '
                  '+ its own length of rows, a loader allocating more than 8M cells, or a worker killed by the 6 GB '
                  'address-space cap / 20 s without progress counts as a violation'],
 )
